@@ -2,6 +2,8 @@ package sim
 
 import (
 	"fmt"
+	"github.com/sarchlab/akita/v5/mem/memcontrolprotocol"
+	"github.com/sarchlab/akita/v5/messaging"
 	"strings"
 	"sync"
 
@@ -16,6 +18,10 @@ import (
 type c22Case struct {
 	Cfg simx.ChainCfg `json:"cfg"`
 	Ops []simx.MemOp  `json:"ops"`
+	// Reset: a Reset control command is sent (and acknowledged) at 1 us, after
+	// the operations without an At have completed; the operations with an At
+	// (cycle 1500) follow it.
+	Reset bool `json:"reset,omitempty"`
 }
 
 type bankKey struct{ rank, bg, bank uint64 }
@@ -118,9 +124,28 @@ func limitsOf(spec dram.Spec, memory string) dramLimits {
 func runC22(cs c22Case) (string, []lib.Problem) {
 	var ch *simx.Chain
 	var panicMsg string
+	resetAcked := false
 	cmds := observeDRAM(func() {
 		ch = simx.BuildChain(cs.Cfg, cloneOps(cs.Ops))
 		ch.Driver.TickLater()
+		if !cs.Reset {
+			panicMsg = ch.Env.Run(400000)
+			return
+		}
+		ctrl := simx.NewController(ch.Env, "Ctrl", []simx.CtrlStep{{Target: 0, Cmd: int(memcontrolprotocol.CmdReset)}},
+			[]messaging.RemotePort{ch.DRAM[0].GetPortByName("Control").AsRemote()}, 2)
+		ch.Conn.PlugIn(ctrl.GetPortByName("Ctrl"))
+		ch.Conn.PlugIn(ch.DRAM[0].GetPortByName("Control"))
+		ctrl.OnRsp = func(_ int, rsp simx.CtrlRsp) {
+			resetAcked = rsp.Success
+			dram.VerifObserver(dram.VerifCommand{Kind: "RESET"}) // marker in the command stream
+		}
+		msg, _ := lib.CatchStack(func() { _ = ch.Env.Eng.RunUntil(1_000_000) })
+		if msg != "" {
+			panicMsg = msg
+			return
+		}
+		ctrl.Start()
 		panicMsg = ch.Env.Run(400000)
 	})
 	defer ch.Env.Close()
@@ -149,8 +174,16 @@ func runC22(cs c22Case) (string, []lib.Problem) {
 	}
 	banks := map[bankKey]*bank{}
 	kinds := map[string]int{}
+	if cs.Reset && !resetAcked {
+		bad("reset-not-acknowledged", "the Reset command sent at 1 us was not acknowledged with success")
+	}
 	for _, c := range cmds {
 		kinds[c.Kind]++
+		if c.Kind == "RESET" {
+			// the controller forgets every bank's state; so does the model
+			banks = map[bankKey]*bank{}
+			continue
+		}
 		k := bankKey{c.Rank, c.BankGroup, c.Bank}
 		b := banks[k]
 		if b == nil {
@@ -206,8 +239,48 @@ func runC22(cs c22Case) (string, []lib.Problem) {
 	return fmt.Sprintf("%s A%d P%d R%d W%d RA%d WA%d", sig, kinds["ACT"], kinds["PRE"], kinds["RD"], kinds["WR"], kinds["RDA"], kinds["WRA"]), probs
 }
 
+// c22Geometries: non-preset geometries (every preset has 4 bank groups of 4
+// banks on one rank).
+var c22Geometries = []string{"dram-DEFAULT", "dram-DDR4@1x2x4", "dram-DDR4@2x4x2", "dram-HBM2@1x1x8", "dram-GDDR6@2x2x4"}
+
 func enumC22(c *lib.Ctx, yield func(c22Case) bool) {
 	k := lib.Pick(c, 3, 4)
+	// geometry and reset families: every script of <= 2 requests before and
+	// exactly 2 after an acknowledged Reset (and the same scripts without a
+	// Reset), on the presets and on the non-preset geometries
+	for _, m := range append(append([]string{}, c22Geometries...), dramKinds...) {
+		for _, pol := range lib.Pick(c, []string{""}, []string{"", "-open"}) {
+			memory := m + pol
+			classes := dramAddressClasses(memory)
+			if classes == nil {
+				c.InternalError("cannot probe the address mapping of %s", memory)
+				continue
+			}
+			var alpha []simx.MemOp
+			for _, a := range classes {
+				if a == ^uint64(0) {
+					continue
+				}
+				alpha = append(alpha, simx.MemOp{Addr: a, Size: 64}, simx.MemOp{Write: true, Addr: a, Size: 64})
+			}
+			cfg := simx.ChainCfg{Memory: memory, NumMem: 1, PortBuf: 4, Lat: 1, MSHR: 1, Eager: true}
+			for pre := 1; pre <= 2; pre++ {
+				ok := enumScripts(alpha, pre+2, func(ops []simx.MemOp) bool {
+					if pre == 2 && (ops[0].Write || !ops[3].Write) && !c.Thorough() {
+						return true // quick: a quarter of the 4-request scripts
+					}
+					late := cloneOps(ops)
+					for i := pre; i < len(late); i++ {
+						late[i].At = 1500
+					}
+					return yield(c22Case{Cfg: cfg, Ops: late, Reset: true}) && yield(c22Case{Cfg: cfg, Ops: late})
+				})
+				if !ok {
+					return
+				}
+			}
+		}
+	}
 	for _, m := range dramKinds {
 		for _, pol := range []string{"", "-open"} {
 			memory := m + pol
@@ -230,7 +303,7 @@ func enumC22(c *lib.Ctx, yield func(c22Case) bool) {
 					}
 					cfg := simx.ChainCfg{Memory: memory, NumMem: 1, PortBuf: 4, Lat: 1, MSHR: 1, Eager: eager, DRAMQ: q}
 					for n := 1; n <= k; n++ {
-						if !enumScripts(alpha, n, func(ops []simx.MemOp) bool { return yield(c22Case{cfg, ops}) }) {
+						if !enumScripts(alpha, n, func(ops []simx.MemOp) bool { return yield(c22Case{Cfg: cfg, Ops: ops}) }) {
 							return
 						}
 					}
@@ -244,7 +317,7 @@ func init() {
 	lib.Register(&lib.Check{
 		ID:          "C22",
 		Level:       "exploration",
-		Rule:        "every DRAM preset {DDR4, DDR5, HBM2, HBM3, GDDR6} x page policy {open, close} x queue setting {preset, 2-entry} x issue {back-to-back, one at a time} x every sequence of 1..k (quick 3, thorough 4) requests over {read, write} x address class {same row (2 columns), same bank other row, other bank, other bank group/rank} (classes found by probing the real address mapper); the command stream reported by the verif observer hook is checked against a per-bank state machine (ACT only on a closed bank; RD/WR/RDA/WRA only on the open row; PRE only on an open bank; RDA/WRA close) and against minimum separations recomputed from the Spec independently of the controller's timing table: ACT->RD/WR (tRCD-tAL, or tRCDRD/tRCDWR on HBM/GDDR), ACT->PRE (tRAS), PRE->ACT (tRP), ACT->ACT same bank (tRAS+tRP); completion and data via the C16 flat-memory oracle. Each (preset, policy, queue, issue, script) is a distinct case.",
+		Rule:        "geometry/reset family: presets and 5 non-preset geometries (DefaultSpec 2 ranks x 1 group x 8 banks; DDR4 1x2x4 and 2x4x2; HBM2 1x1x8; GDDR6 2x2x4) x close page [thorough + open page] x every script of 1..2 requests, an acknowledged Reset at 1 us (and the same script without it), then 2 more requests, the model forgetting every bank's state at the Reset; main family: every DRAM preset {DDR4, DDR5, HBM2, HBM3, GDDR6} x page policy {open, close} x queue setting {preset, 2-entry} x issue {back-to-back, one at a time} x every sequence of 1..k (quick 3, thorough 4) requests over {read, write} x address class {same row (2 columns), same bank other row, other bank, other bank group/rank} (classes found by probing the real address mapper); the command stream reported by the verif observer hook is checked against a per-bank state machine (ACT only on a closed bank; RD/WR/RDA/WRA only on the open row; PRE only on an open bank; RDA/WRA close) and against minimum separations recomputed from the Spec independently of the controller's timing table: ACT->RD/WR (tRCD-tAL, or tRCDRD/tRCDWR on HBM/GDDR), ACT->PRE (tRAS), PRE->ACT (tRP), ACT->ACT same bank (tRAS+tRP); completion and data via the C16 flat-memory oracle. Each (preset, policy, queue, issue, script) is a distinct case.",
 		Sharded:     true,
 		MinOutcomes: 20,
 		Assumptions: []string{"only the separations the property names (plus same-bank tRC) are judged; the rest of the JEDEC table is recorded but not judged", "runs are short (no refresh window is reached)"},
